@@ -1189,7 +1189,9 @@ package hermes
 //@   ensures stillpending: g.ERNTE[idx()] == 0 ==> zeit + 1 <= g.ERNTE2[idx()] - 1
 //@   ensures nextsowing: forall(k, 0, 300, k != idx() + 1 ==> g.SAAT[k] == old(g.SAAT[k])) && (g.SAAT[idx()+1] == old(g.SAAT[idx()+1]) || g.SAAT[idx()+1] == zeit + 4)
 
-//@ region PhytoOut#forcedharvest from "if zeit == g.ERNTE2[g.AKF.Index]-1 && g.ERNTE[g.AKF.Index] == 0 { g.ERNTE[g.AKF.Index] = zeit + 1 if g.SAAT" to "if zeit == g.ERNTE2[g.AKF.Index]-1 && g.ERNTE[g.AKF.Index] == 0 { g.ERNTE[g.AKF.Index] = zeit + 1 if g.SAAT"
+// (the region ends at the statement that follows the forced-harvest test in the TOP-LEVEL statement list of PhytoOut, so it
+// only binds to a test that every call reaches - emerged crop or not -, not to the copy inside the emergence branch)
+//@ region PhytoOut#forcedharvest from "if zeit == g.ERNTE2[g.AKF.Index]-1 && g.ERNTE[g.AKF.Index] == 0 {" to "if DTGESN > 6*g.DT.Num {"
 //@   serves C16, C05
 //@   define idx() = g.AKF.Index
 //@   requires crop: 0 <= g.AKF.Index && g.AKF.Index < 299
